@@ -1033,6 +1033,80 @@ func c19(c *core.Ctx) {
 		c.EndRule()
 	}
 
+	// ---------------------------------------------------------------- R7
+	if c.Rule("R7", "the stubs name the service description that protoc-gen-go-grpc emits: the descriptor variable a stub or a registration function refers to is, on every path, the answer of a GoNames query for that service (GoNameOfServiceDesc / GoNameOfExportedServiceDesc), not a name the plugin assembles itself from the service's name (the two agree only for names whose Go form is obvious)", 1) {
+		var fromGoNames func(v ssa.Value, depth int) (bool, string)
+		fromGoNames = func(v ssa.Value, depth int) (bool, string) {
+			if depth > 3 {
+				return false, "too deep"
+			}
+			for _, o := range core.Origins(v) {
+				src := o
+				if base, _, isF := core.FieldOf(o); isF {
+					// a field of a query's answer (GoNameOfExportedServiceDesc(sd).Name)
+					src = base
+				}
+				if fx, isFx := o.(*ssa.Field); isFx {
+					src = fx.X
+				}
+				call, idx, ok := core.CallResult(src)
+				if !ok {
+					return false, core.ValName(o)
+				}
+				ci := core.InfoOf(&call.Call)
+				if ci.Recv == "GoNames" && strings.Contains(ci.Name, "ServiceDesc") {
+					continue
+				}
+				if ci.Static != nil && ci.Static.Blocks != nil && core.PkgIs(ci.Static, genPkg) {
+					for _, r := range core.Returns(ci.Static) {
+						if idx < len(r.Results) {
+							if ok2, why := fromGoNames(r.Results[idx], depth+1); !ok2 {
+								return false, ci.Name + ": " + why
+							}
+						}
+					}
+					continue
+				}
+				return false, ci.Full()
+			}
+			return true, ""
+		}
+		n := 0
+		for _, fn := range p.LibFuncs(genPkg) {
+			core.Instrs(fn, func(in ssa.Instruction) {
+				var v ssa.Value
+				what := ""
+				switch x := in.(type) {
+				case *ssa.Store:
+					if _, fld, isF := core.FieldOf(x.Addr); isF && strings.Contains(fld, "ServiceDesc") && core.TypeStr(x.Val.Type()) == "string" {
+						v, what = x.Val, "template field "+fld
+					}
+				case *ssa.Call:
+					if f, args, ok := core.FormatOf(x); ok && strings.Contains(f, "RegisterService(&%s") && len(args) >= 1 {
+						v, what = args[0], "registration function"
+					}
+					if ci := core.InfoOf(&x.Call); len(x.Call.Args) >= 2 {
+						if f, isC := core.ConstString(x.Call.Args[len(x.Call.Args)-2]); isC && strings.Contains(f, "RegisterService(&%s") && ci.Name == "Printlnf" {
+							if va, ok := core.VariadicArgs(x.Call.Args[len(x.Call.Args)-1]); ok && len(va) >= 1 {
+								v, what = va[0], "registration function"
+							}
+						}
+					}
+				}
+				if v == nil {
+					return
+				}
+				n++
+				ok, why := fromGoNames(v, 0)
+				c.Check(ok, core.FuncName(fn)+":desc-var-from-GoNames:"+what, in.Pos(), "the descriptor variable's name is GoNames' answer on every path", "the name of the service description the generated code refers to ("+what+") is not the answer of a GoNames query ("+why+"): for service names whose Go form differs from what the plugin assembles (a digit followed by a lower-case letter, say) the stubs refer to a variable protoc-gen-go-grpc never emits")
+			})
+		}
+		if n == 0 {
+			c.Missing("uses of the service description's Go name (template field ServiceDesc / the registration function)")
+		}
+		c.EndRule()
+	}
+
 	// ---------------------------------------------------------------- R6
 	if c.Rule("R6", "what was generated is what protoc gets: the generator only writes into the plugin response (OutputFile / OutputSnippet / SupportsFeatures); the response's contents are one-shot readers that the plugin runner serialises, so nothing of the generator reads them back (ForEach) — a reader emptied by a report or a post-processing pass leaves an empty file", 1) {
 		writes := map[string]bool{"OutputFile": true, "OutputSnippet": true, "SupportsFeatures": true}
